@@ -201,6 +201,22 @@ def apply_user_op(net, op, net0=None):
         pp.create_fluid_from_lib(net, op[1], overwrite=True)
     elif op[0] == "fluid_original":
         net["fluid"] = copy.deepcopy(net0["fluid"])
+    elif op[0] == "stdtype_new_pump":     # define a NEW pump standard type (copy of a library one) and switch a pump to it
+        from pandapipes.std_types.std_types import create_pump_std_type
+        obj = copy.deepcopy(net0.std_types["pump"][op[2]])
+        obj.name = op[1]
+        create_pump_std_type(net, op[1], obj, overwrite=True)
+        net.pump.at[op[3], "std_type"] = op[1]
+    elif op[0] == "stdtype_new_pipe":     # define a NEW pipe standard type and switch a pipe to it
+        from pandapipes.std_types.std_types import create_std_type, change_std_type
+        create_std_type(net, "pipe", op[1], dict(op[2]), overwrite=True)
+        change_std_type(net, op[3], op[1], "pipe")
+    elif op[0] == "row_restore":          # put the original row of an element table back
+        net[op[1]].loc[op[2]] = net0[op[1]].loc[op[2]]
+    elif op[0] == "add_component":        # first row of a component that the net did not use so far
+        getattr(pp, op[1])(net, **copy.deepcopy(op[2]))
+    elif op[0] == "drop_rows":
+        net[op[1]].drop(index=list(net[op[1]].index), inplace=True)
     elif op[0] == "stdtype_swap":         # standard-type object replaced by (a copy of) another one
         net.std_types[op[1]][op[2]] = copy.deepcopy(net0.std_types[op[1]][op[3]])
     elif op[0] == "edit":
